@@ -96,10 +96,9 @@ Definition read_nf (r : read) : bool :=
   | _ => true
   end.
 
-(* well-formed: the building history consists of writes, none of which adds a
-   quad whose graph is None (C02's finding F18) *)
+(* well-formed: the building history consists of writes *)
 Definition pwf (c : pcase) : Prop :=
-  forallb (fun o => negb (is_read o) && negb (adds_none o)) (p_build c) = true.
+  forallb (fun o => negb (is_read o)) (p_build c) = true.
 
 (* trigger 1 (F19): some read is handed a foreign Graph object *)
 Definition pkf (c : pcase) : N := if forallb read_nf (p_reads c) then 0 else 1.
